@@ -272,10 +272,20 @@ def gen_risk_case(rng, name):
     hist = rng.choice([0, 0, 1])
     stack = [sched, ["weighspecified", ws], ["rebalance"], ["updaterisk", m, hist], ["selectthese", [hedge], False, False],
              ["hedgerisk1", m], ["updaterisk", m, hist]]
+    weigh = ["weighspecified", ws]
+    if rng.random() < 0.45:
+        # rotating body: per-date target weights that drop to zero, so that securities which carried risk go flat
+        # (and come back) while UpdateRisk keeps running
+        wcols = [[t, [hx(rng.choice([0.0, 0.0, 0.125, 0.25, 0.375])) for _ in range(n)]] for t in body]
+        adata.append([5, ["frame", list(dates), wcols]])
+        weigh = ["weightarget", 5]
+        sched = ["runperiod", "daily", True, False, False]
+        stack = [sched, weigh, ["rebalance"], ["updaterisk", m, hist], ["selectthese", [hedge], False, False],
+                 ["hedgerisk1", m], ["updaterisk", m, hist]]
     if rng.random() < 0.3:
         # nested: the body lives in a sub-strategy, the parent tracks risk over the whole tree
         sub = ["strat", 30, False, [k for k in kids if k[1] in body],
-               [["runperiod", "daily", True, False, False], ["weighspecified", ws], ["rebalance"]]]
+               [["runperiod", "daily", True, False, False], weigh, ["rebalance"]]]
         tree = ["strat", 40, False, [sub, [k for k in kids if k[1] == hedge][0]],
                 [sched, ["weighspecified", [[30, hx(0.5)]]], ["rebalance"], ["updaterisk", m, hist],
                  ["selectthese", [hedge], False, False], ["hedgerisk1", m], ["updaterisk", m, hist]]]
@@ -291,9 +301,56 @@ def gen_risk_cases(seed, n, prefix="q"):
     return [gen_risk_case(rng, "%s%05d" % (prefix, i)) for i in range(n)]
 
 
+def gen_replay_case(rng, name):
+    """a flat strategy driven by ReplayTransactions from a blotter in ANY row order (per security, shuffled, sorted),
+    with several rows per (date, security), off-timeline stamps (booked on the next data date, or never) and custom prices"""
+    g = BTGen(rng)
+    n = rng.randint(6, 16)
+    dates = gen_dates(rng, n)
+    nt = rng.randint(2, 4)
+    tickers = list(range(1, nt + 1))
+    prices = [[t, gen_price_col(rng, n, p_nan=0.0)] for t in tickers]
+    g.full = set(tickers)
+    pcol = {t: col for t, col in prices}
+    rows = []
+    for _ in range(rng.randint(3, 14)):
+        r = rng.randrange(n)
+        t = rng.choice(tickers)
+        stamp = dates[r] + rng.choice([0, 0, 0, 0, -3 * 3600, 5 * 3600, 86400 * 2])
+        px = float.fromhex(pcol[t][r])
+        px = px if rng.random() < 0.5 else max(0.25, px + rng.randint(-8, 8) / 8.0)
+        rows.append([stamp, t, hx(float(rng.choice([-40, -15, -2.5, 1, 7, 10, 25, 60]))), hx(px)])
+    order = rng.choice(["shuffled", "by_security", "sorted", "reversed"])
+    if order == "shuffled":
+        rng.shuffle(rows)
+    elif order == "by_security":
+        rows.sort(key=lambda x: (x[1], x[0]))
+    elif order == "sorted":
+        rows.sort(key=lambda x: x[0])
+    else:
+        rows.sort(key=lambda x: -x[0])
+    key = g.key()
+    kids = [["sec", t, "sec", False, hx(rng.choice([1.0, 1.0, 2.0, 0.5])), False] for t in tickers]
+    tree = ["strat", nt + 5, False, kids, [["replay", key]]]
+    bidoffer = [[t, [hx(dy(rng, 0, 1, 8) if rng.random() < 0.5 else 0.0) for _ in range(n)]] for t in tickers]
+    comm = rng.choice([["none"], ["flat", hx(1.0)], ["prop", hx(0.001953125)], ["pershare", hx(0.015625)]])
+    return {"name": name, "dates": dates, "intpos": rng.random() < 0.3, "comm": comm, "prices": prices,
+            "bidoffer": bidoffer, "coupons": None, "cost_long": None, "cost_short": None,
+            "adata": [[key, ["trans", rows]]], "capital": hx(float(rng.choice([100000, 1000000]))), "tree": tree,
+            "pyseed": rng.randint(0, 1000)}
+
+
+def gen_replay_cases(seed, n, prefix="y"):
+    rng = random.Random(seed * 23 + 7)
+    return [gen_replay_case(rng, "%s%05d" % (prefix, i)) for i in range(n)]
+
+
 def gen_case(rng, name):
-    if rng.random() < 0.2:
+    r0 = rng.random()
+    if r0 < 0.2:
         return gen_fi_case(rng, name)
+    if r0 < 0.26:
+        return gen_replay_case(rng, name)
     g = BTGen(rng)
     n = rng.randint(6, 24)
     dates = gen_dates(rng, n)
@@ -412,8 +469,43 @@ def gen_cases(seed, n, prefix="b"):
     return [gen_case(rng, "%s%05d" % (prefix, i)) for i in range(n)]
 
 
+def gen_touch_zero_case(rng, name):
+    """the exact boundary of the bankruptcy test: a one-shot leveraged or short book whose value lands EXACTLY on zero
+    on the shock date (every number dyadic, no costs) and then stays there, recovers, or goes on below zero; also roots
+    funded with no capital at all.  A value that never goes below zero must never be flagged."""
+    n = rng.randint(6, 12)
+    dates = gen_dates(rng, n)
+    nt = rng.randint(1, 2)
+    tickers = list(range(1, nt + 1))
+    # weight w on the book, price factor f with 1 + w (f - 1) = 0
+    w, f = rng.choice([(2.0, 0.5), (4.0, 0.75), (-1.0, 2.0), (-2.0, 1.5), (-0.5, 3.0)])
+    shock_row = rng.randint(2, n - 3)
+    after = rng.choice(["flat", "flat", "recover", "worse"])
+    p0 = rng.choice([32.0, 64.0, 128.0])
+    col = []
+    for r in range(n):
+        if r < shock_row:
+            col.append(p0)
+        elif r == shock_row or after == "flat":
+            col.append(p0 * f)
+        elif after == "recover":
+            col.append(p0)
+        else:
+            col.append(p0 * f * (f if f < 1 else 1.25))
+    prices = [[t, [hx(x) for x in col]] for t in tickers]
+    ws = [[t, hx(w / nt)] for t in tickers]
+    capital = rng.choice([0.0, 65536.0, 1048576.0])
+    tree = ["strat", 20, False, [["sec", t, "sec", False, hx(1.0), "str"] for t in tickers],
+            [["runonce"], ["weighspecified", ws], ["rebalance"]]]
+    return {"name": name, "dates": dates, "intpos": False, "comm": ["none"], "prices": prices,
+            "bidoffer": None, "coupons": None, "cost_long": None, "cost_short": None, "adata": [],
+            "capital": hx(capital), "tree": tree, "pyseed": 0}
+
+
 def gen_bankrupt_case(rng, name):
     """leveraged / short portfolios with a price shock that may or may not drive value through zero"""
+    if rng.random() < 0.12:
+        return gen_touch_zero_case(rng, name)
     n = rng.randint(6, 14)
     dates = gen_dates(rng, n)
     nt = rng.randint(2, 4)
